@@ -10,7 +10,7 @@
 using namespace vp;
 
 enum { OP_LOAD_N, OP_LOAD_CT, OP_ALOAD_N, OP_ALOAD_CT, OP_STORE_N, OP_STORE_CT, OP_ASTORE_N, OP_ASTORE_CT,
-       OP_GATHER_N, OP_GATHER_CT, OP_SCATTER_N, OP_SCATTER_CT, OP_EXTRACT, OP_INSERT, OP_TO_ARRAY, OP_FROM_ARRAY, OP_GATHER_FAR, OP_SCATTER_FAR, OP_COUNT };
+       OP_GATHER_N, OP_GATHER_CT, OP_SCATTER_N, OP_SCATTER_CT, OP_EXTRACT, OP_INSERT, OP_TO_ARRAY, OP_FROM_ARRAY, OP_GATHER_FAR, OP_SCATTER_FAR, OP_STORE_RACE, OP_COUNT };
 // v0 payload lanes (memory contents for loads / vector for stores), v1 indices; s0 = n, s1 = element offset, s2 = placement, s3 = inserted value / lane
 static const VpOp OPS[] = {
     {"load_n", {VK_INT}, {SK_N, SK_OFF, SK_SMALL}, 3}, {"load_ct", {VK_INT}, {SK_N, SK_OFF, SK_SMALL}, 2},
@@ -21,17 +21,20 @@ static const VpOp OPS[] = {
     {"scatter_n", {VK_INT, VK_IDX}, {SK_N, SK_OFF, SK_SMALL}, 3}, {"scatter_ct", {VK_INT, VK_IDX}, {SK_N, SK_OFF, SK_SMALL}, 1},
     {"extract", {VK_INT}, {SK_LANE}, 1}, {"insert", {VK_INT}, {SK_LANE, SK_NONE, SK_NONE, SK_INTVAL}, 1}, {"to_array", {VK_INT}, {}, 1}, {"array_ctor", {VK_INT}, {SK_SMALL}, 2},
     {"gather_far_index", {VK_INT, VK_IDX}, {SK_N, SK_OFF, SK_SMALL}, 1}, {"scatter_far_index", {VK_INT, VK_IDX}, {SK_N, SK_OFF, SK_SMALL}, 1},
+    // C09 only: a partial store repeated while a second thread owns (keeps rewriting and re-reading) the elements behind the addressed ones; s2 = form
+    {"partial_store_beside_concurrent_writer", {VK_INT}, {SK_N, SK_OFF, SK_SMALL}, 1012},
 };
-enum { CL_PARTIAL, CL_N_GT_W, CL_N_ZERO, CL_UNALIGNED, CL_NEG_INDEX, CL_FLUSH_END, CL_FLUSH_START, CL_WILD_INACTIVE, CL_PTR_IN_GUARD, CL_ORDINARY };
+enum { CL_PARTIAL, CL_N_GT_W, CL_N_ZERO, CL_UNALIGNED, CL_NEG_INDEX, CL_FLUSH_END, CL_FLUSH_START, CL_WILD_INACTIVE, CL_PTR_IN_GUARD, CL_ORDINARY, CL_RACE };
 static const char* const CLASSES[] = {"partial_0_lt_n_lt_width", "n_greater_than_width", "n_zero", "unaligned_address", "negative_index",
-                                      "range_ends_at_guard_page", "range_starts_after_guard_page", "wild_index_in_inactive_lane", "n_zero_pointer_into_guard_page", "ordinary"};
+                                      "range_ends_at_guard_page", "range_starts_after_guard_page", "wild_index_in_inactive_lane", "n_zero_pointer_into_guard_page", "ordinary", "tail_owned_by_concurrent_writer"};
 
 #ifdef VP_PROP_C09
 extern "C" const char* vp_property(void) { return "C09"; }
 extern "C" const char* vp_rule(void) {
     return "a case is one memory operation (load/store/aligned/gather/scatter, run-time or compile-time count) with the addressed element range flush against a PROT_NONE page "
            "(ending at a page end or starting at a page start), n=0 with the pointer inside the guard page, or wild indices in inactive gather/scatter lanes; any signal or any "
-           "changed sentinel byte outside the addressed elements fails; non-trivial = n < width with the tail in the guard page, n = 0, or an inactive wild index; distinct = hash of the Case";
+           "changed sentinel byte outside the addressed elements fails; a partial store is also repeated while a second thread keeps rewriting the elements behind the addressed ones and checks "
+           "that none of its writes is ever undone (a store that reads and rewrites the whole block loses them); non-trivial = n < width with the tail in the guard page, n = 0, or an inactive wild index; distinct = hash of the Case";
 }
 #else
 extern "C" const char* vp_property(void) { return "C08"; }
@@ -41,7 +44,13 @@ extern "C" const char* vp_rule(void) {
 }
 #endif
 extern "C" const VpOp* vp_ops(uint32_t* n) { *n = OP_COUNT; return OPS; }
-extern "C" const char* const* vp_class_names(uint32_t* n) { *n = 10; return CLASSES; }
+extern "C" const char* const* vp_class_names(uint32_t* n) { 
+#ifdef VP_PROP_C09
+    *n = 11;
+#else
+    *n = 10;
+#endif
+    return CLASSES; }
 #define ALLCLS(c) true
 VP_DEFINE_VECTOR_TARGETS(ALLCLS)
 
@@ -99,11 +108,88 @@ template<class V, bool HasGS = (sizeof(typename V::scalar) >= 4)> struct GS {
 };
 template<class V> struct GS<V, false> { static void run(const VpCase*, VpOutcome* o, unsigned, unsigned) { o->status = 2; } static void far(const VpCase*, VpOutcome* o, unsigned) { o->status = 2; } };
 
+#ifdef VP_PROP_C09
+// ---- a second thread that owns the tail of the block ----
+#include <pthread.h>
+#include <signal.h>
+#include <atomic>
+struct Watcher {
+    volatile unsigned char* tail; size_t len; unsigned iters;
+    std::atomic<unsigned> started, finished, lost;
+    unsigned char last; pthread_t th; bool pending;
+};
+static Watcher g_w;
+static void* watcher_main(void*) {
+    g_w.started.store(1, std::memory_order_release);
+    unsigned char val = 0;
+    for (unsigned k = 1; k <= g_w.iters; ++k) {
+        val = (unsigned char)(k * 37u + 1u);
+        for (size_t b = 0; b < g_w.len; ++b) g_w.tail[b] = val;
+        for (int sp = 0; sp < (int)(k % 13); ++sp) __builtin_ia32_pause();
+        for (size_t b = 0; b < g_w.len; ++b) if (g_w.tail[b] != val) { g_w.lost.fetch_add(1, std::memory_order_relaxed); break; }
+    }
+    g_w.last = val;
+    g_w.finished.store(1, std::memory_order_release);
+    return nullptr;
+}
+alignas(64) static unsigned char g_race_block[512];
+template<class V> static void store_race(const VpCase* c, VpOutcome* o, unsigned n) {
+    typedef typename V::scalar T;
+    const unsigned W = V::width, ES = sizeof(T);
+    if (W < 2) { o->status = 2; return; }
+    n = 1 + n % (W - 1);                                  // 1 .. W-1: there is a tail
+    const unsigned form = (unsigned)(c->s[2] < 0 ? -c->s[2] : c->s[2]) % 4;        // 0 store(p,v,n) 1 aligned_store(p,v,n) 2 store<N> 3 aligned_store<N>
+    const bool aligned = (form & 1) != 0;
+    const unsigned off = aligned ? 0 : ((unsigned)(c->s[1] < 0 ? -c->s[1] : c->s[1]) % 8) * ES;
+    unsigned char* p = g_race_block + 128 + off;          // 64-byte aligned block (+ an element offset for the unaligned forms)
+    uint64_t lanes[VP_MAXL], got[VP_MAXL], exp[VP_MAXL];
+    for (unsigned i = 0; i < W; ++i) lanes[i] = c->v[0][i] & elem<T>::mask();
+    V v = mk<V>(lanes);
+    if (g_w.pending) { pthread_join(g_w.th, nullptr); g_w.pending = false; }      // left over from a Case that ended in a signal
+    std::memset(g_race_block, 0x5A, sizeof g_race_block);
+    g_w.tail = p + n * ES; g_w.len = (W - n) * ES; g_w.iters = 4000;
+    g_w.started.store(0); g_w.finished.store(0); g_w.lost.store(0);
+    sigset_t all, old; sigfillset(&all); pthread_sigmask(SIG_BLOCK, &all, &old);  // the second thread takes no signals: the guard and the watchdog belong to this one
+    const int rc = pthread_create(&g_w.th, nullptr, watcher_main, nullptr);
+    pthread_sigmask(SIG_SETMASK, &old, nullptr);
+    if (rc != 0) { o->status = 2; return; }
+    g_w.pending = true;
+    o->classes |= 1u << CL_RACE | 1u << CL_PARTIAL; o->nontrivial = 1;
+    while (!g_w.started.load(std::memory_order_acquire)) { }
+    uint64_t stores = 0;
+    do {
+        switch (form) {
+        case 0: avel::store((T*)p, v, n); break;
+        case 1: avel::aligned_store((T*)p, v, n); break;
+        case 2: { StoreCt<V> f; f.p = (T*)p; f.v = v; dispatch<W + 1>::go(n, f); break; }
+        default: { AStoreCt<V> f; f.p = (T*)p; f.v = v; dispatch<W + 1>::go(n, f); break; }
+        }
+        ++stores;
+    } while (!g_w.finished.load(std::memory_order_acquire));
+    pthread_join(g_w.th, nullptr); g_w.pending = false;
+    o->lanes_compared += W;
+    const unsigned lost = g_w.lost.load();
+    if (lost) { fail(o, -1, "concurrent_write_to_tail_undone", "%s with n=%u: %u of %u writes a second thread made to the elements behind the addressed ones were overwritten with stale data (%llu stores ran meanwhile)", OPS[c->op].name, n, lost, g_w.iters, (unsigned long long)stores); return; }
+    for (size_t b = 0; b < g_w.len; ++b) if (g_w.tail[b] != g_w.last) { fail(o, -1, "concurrent_write_to_tail_undone:final", "the tail does not hold the second thread's last value after the run"); return; }
+    for (unsigned i = 0; i < W; ++i) { exp[i] = i < n ? lanes[i] : 0; got[i] = 0; }
+    for (unsigned i = 0; i < n; ++i) { T x; std::memcpy(&x, p + i * ES, ES); got[i] = elem<T>::to_bits(x); }
+    cmp_lanes(o, W, exp, got, nullptr, "store_race:head", "stored elements");
+}
+#endif
+
 template<class V> static void run(const VpCase* c, VpOutcome* o) {
     typedef typename V::scalar T;
     const unsigned W = V::width, ES = sizeof(T);
     const uint64_t m = elem<T>::mask();
     arena_init();
+    if (c->op == OP_STORE_RACE) {
+#ifdef VP_PROP_C09
+        store_race<V>(c, o, (unsigned)(c->s[0] < 0 ? -c->s[0] : c->s[0]));
+#else
+        o->status = 2;
+#endif
+        return;
+    }
     const unsigned op = c->op;
     unsigned n = (unsigned)(c->s[0] < 0 ? -c->s[0] : c->s[0]) % (W + 3);
     const bool ct = (op == OP_LOAD_CT || op == OP_ALOAD_CT || op == OP_STORE_CT || op == OP_ASTORE_CT || op == OP_GATHER_CT || op == OP_SCATTER_CT);
@@ -353,6 +439,15 @@ extern "C" void vp_enum(int tier, uint64_t seed, uint32_t shard, uint32_t nshard
             if (op == OP_GATHER_FAR || op == OP_SCATTER_FAR) {
                 if (B != 64) continue;
                 for (unsigned n = 0; n <= W + 1; ++n) for (unsigned v = 0; v < 8; ++v) { c.s[0] = n; c.s[1] = v; emit(&c, ctx); }
+                continue;
+            }
+            if (op == OP_STORE_RACE) {
+#ifdef VP_PROP_C09
+                if (W < 2) continue;
+                // n = 1, the middle and width-1, each store form, the unaligned forms also at an odd element offset
+                const unsigned ns[3] = {0, W / 2 - 1, W - 2};     // store_race maps s0 to 1 + s0 % (W-1)
+                for (unsigned k = 0; k < 3; ++k) { if (k && ns[k] == ns[k - 1]) continue; for (unsigned form = 0; form < 4; ++form) for (unsigned off = 0; off < ((form & 1) ? 1u : 2u); ++off) { c.s[0] = ns[k]; c.s[1] = off * 3; c.s[2] = form; emit(&c, ctx); } }
+#endif
                 continue;
             }
             if (op >= OP_EXTRACT) {
